@@ -89,6 +89,55 @@ func unlockGates(c *an.Check, unlock *ssa.Function) (openCall *ssa.Call) {
 	return openCall
 }
 
+// seenSetScope: the de-duplication set of UnlockEnvelope is ONE map for the whole call — allocated outside every loop — so
+// that equal share ids are filtered across grants, not only within one (secretsharing.Recover panics on duplicates).
+func seenSetScope(c *an.Check, unlock *ssa.Function) {
+	n, bad := 0, ""
+	for _, b := range unlock.Blocks {
+		for _, ins := range b.Instrs {
+			lk, ok := ins.(*ssa.Lookup)
+			if !ok || !lk.CommaOk {
+				continue
+			}
+			mm, isMake := lk.X.(*ssa.MakeMap)
+			if !isMake {
+				continue
+			}
+			n++
+			if an.InnermostLoop(unlock, mm.Block()) != nil {
+				bad = fmt.Sprintf("the seen-set is allocated inside a loop at %s: share ids are de-duplicated per grant only, duplicates across grants reach secretsharing.Recover (which panics)", c.P.Pos(mm.Pos()))
+			}
+		}
+	}
+	c.Require(bad == "" && n == 1, "LOOPALLOC", "envelope.UnlockEnvelope de-duplicates share ids across all grants", unlock, "", n, "one seen-set, allocated outside every loop", func() string {
+		if bad != "" {
+			return bad
+		}
+		return "de-duplication lookup not found (anchor drift)"
+	}())
+}
+
+// grantPlaintextNonNil: UnlockEnvelope uses "decrypted data == nil" as its could-not-decrypt sentinel; the decrypt chain
+// must therefore return non-nil data for an empty grant body: s2.Decode is given a non-nil destination.
+func grantPlaintextNonNil(c *an.Check) {
+	dec := c.P.Func("peer", "", "DecryptWithEd25519")
+	n, bad := 0, ""
+	if dec != nil {
+		for _, call := range an.Calls(dec, an.X("github.com/klauspost/compress/s2", "", "Decode")) {
+			n++
+			if isNilConst(call.Call.Args[0]) {
+				bad = "s2.Decode is called with a nil destination: an empty plaintext decodes to a nil slice, which UnlockEnvelope reads as 'grant could not be decrypted'"
+			}
+		}
+	}
+	c.Require(bad == "" && n == 1, "PROVENANCE", "peer.DecryptWithEd25519 returns non-nil data for an empty plaintext", dec, "", n, "s2.Decode(dst != nil, …)", func() string {
+		if bad != "" {
+			return bad
+		}
+		return "s2.Decode call not found (anchor drift)"
+	}())
+}
+
 func c16(c *an.Check) {
 	p := c.P
 	build, unlock := envelopeFuncs(c)
@@ -96,6 +145,8 @@ func c16(c *an.Check) {
 		return
 	}
 	openCall := unlockGates(c, unlock)
+	seenSetScope(c, unlock)
+	grantPlaintextNonNil(c)
 	// what is returned is what Open authenticated; Recover gets (threshold, collected)
 	c.EachReturn("PROVENANCE", "envelope.UnlockEnvelope returns the AEAD plaintext", unlock, "payload = Open(...)", func(s *an.State, ret *ssa.Return) string {
 		v := s.RetVal(ret, 0)
